@@ -24,7 +24,7 @@ from aws_durable_execution_sdk_python.waits import (
     WaitForConditionDecision,
 )
 
-from dw.canon import canon
+from dw.canon import canon, key_order
 
 
 class UserErr(Exception):
@@ -162,7 +162,7 @@ class Interp:
                    mro=[c.__name__ for c in type(e).__mro__],
                    etype=getattr(e, "error_type", None))
             raise
-        rt.rpc("ret", path=path, opkind=kind, phase=phase, val=cv(v))
+        rt.rpc("ret", path=path, opkind=kind, phase=phase, val=cv(v), ko=key_order(v) if cv is canon else "")
         return v
 
     def behave(self, path, kind, script, extra=None):
